@@ -835,14 +835,96 @@ Definition wf_log_write (w : log_write) : bool := lw_writes_line w && lw_flush w
 Definition wf_payload_bound (bound : N) (guards : list bool) : bool :=
   (bound + 2 <? 128) && forallb (fun g => g) guards && (4 <=? N.of_nat (length guards)).
 
+(* ---------- the ORDER of the sinks at an emit site, and a log write that can fail ----------
+   `emit` above is one step; the code is three statements, and the log write can fail (disk full, I/O error):
+     continuities.rs (every append path):   self.event_log.append(&event).map_err(..)?;      -- Err: the function returns
+                                            self.stream_cache.append_best_effort(&event);
+                                            let _ = self.sender.send(event.clone());
+     session.rs emit_event / tasks emit:    guard.push(event.clone());  let _ = sender.send(event.clone());
+                                            let _ = event_log.append(&event);                 -- the error is dropped
+   The order and whether the log append's result is checked (`?`) are read from the source for every emit site
+   (tools/gen/sinks.py -> ss_order). *)
+Inductive sink_op := SLog | SStore | SSend.
+Definition is_log (o : sink_op) : bool := match o with SLog => true | _ => false end.
+Record emit_order := { eo_ops : list sink_op; eo_log_checked : bool }.
+
+Definition add_log (s : schema) (k : sinks) (e : event) : sinks :=
+  {| k_log := k_log k ++ [write_line s e]; k_sidecar := k_sidecar k; k_buffer := k_buffer k; k_live := k_live k |}.
+Definition add_store (s : schema) (k : sinks) (e : event) : sinks :=
+  {| k_log := k_log k;
+     k_sidecar := k_sidecar k ++ [(fst (stream_key s e), snd (stream_key s e), write_line s e)];
+     k_buffer := k_buffer k ++ [e]; k_live := k_live k |}.
+Definition add_live (k : sinks) (e : event) : sinks :=
+  {| k_log := k_log k; k_sidecar := k_sidecar k; k_buffer := k_buffer k; k_live := k_live k ++ [e] |}.
+
+(* the statements of one emit site for frame e; ok = the log write succeeds *)
+Fixpoint emit_ops (s : schema) (checked ok : bool) (ops : list sink_op) (k : sinks) (e : event) : sinks :=
+  match ops with
+  | [] => k
+  | SLog :: r => if ok then emit_ops s checked ok r (add_log s k e) e
+                 else if checked then k                       (* `?`: the append path returns Err here *)
+                 else emit_ops s checked ok r k e             (* `let _ =`: the error is dropped, the rest runs *)
+  | SStore :: r => emit_ops s checked ok r (add_store s k e) e
+  | SSend :: r => emit_ops s checked ok r (add_live k e) e
+  end.
+Definition emit_at (eo : emit_order) (s : schema) (k : sinks) (e : event) (ok : bool) : sinks :=
+  emit_ops s (eo_log_checked eo) ok (eo_ops eo) k e.
+
+(* a history of emits, each with the fate of its log write *)
+Definition run_faulty (eo : emit_order) (s : schema) (steps : list (event * bool)) : sinks :=
+  fold_left (fun k x => emit_at eo s k (fst x) (snd x)) steps sinks0.
+Definition logged (steps : list (event * bool)) : list event := map fst (filter snd steps).
+
+(* the checked log append comes first and is the only one *)
+Definition log_first (eo : emit_order) : bool :=
+  match eo_ops eo with SLog :: r => eo_log_checked eo && negb (existsb is_log r) | _ => false end.
+(* ... and store and channel each get the frame once (the order read from continuities.rs) *)
+Definition wf_order (eo : emit_order) : bool :=
+  match eo_ops eo with
+  | [SLog; SStore; SSend] | [SLog; SSend; SStore] => eo_log_checked eo
+  | _ => false
+  end.
+(* every sink gets the frame once, in some order (what must hold of an emit site when no write fails) *)
+Definition count_op (p : sink_op -> bool) (ops : list sink_op) : nat := length (filter p ops).
+Definition order_complete (eo : emit_order) : bool :=
+  Nat.eqb (count_op is_log (eo_ops eo)) 1
+  && Nat.eqb (count_op (fun o => match o with SStore => true | _ => false end) (eo_ops eo)) 1
+  && Nat.eqb (count_op (fun o => match o with SSend => true | _ => false end) (eo_ops eo)) 1.
+
+Definition eo_cont : emit_order := {| eo_ops := [SLog; SStore; SSend]; eo_log_checked := true |}.
+Definition eo_sess : emit_order := {| eo_ops := [SStore; SSend; SLog]; eo_log_checked := false |}.
+(* the seeded change C03-4: sidecar written before the (checked) log append *)
+Definition eo_sidecar_first : emit_order := {| eo_ops := [SStore; SLog; SSend]; eo_log_checked := true |}.
+
+(* ---------- the buffer a snapshot is written from ----------
+   session.rs: emit_event pushes every frame to the handle's Vec<Event>; run_session writes the snapshot from that
+   very buffer.  A buffer that is shortened (capped at `cap` frames, oldest dropped: the seeded change C03-6) is
+   `emit_capped`; tools/gen/sinks.py reads every shortening call on the buffers (gen_buffer_use). *)
+Definition emit_capped (cap : nat) (s : schema) (k : sinks) (e : event) : sinks :=
+  let k' := emit s k e in
+  {| k_log := k_log k'; k_sidecar := k_sidecar k';
+     k_buffer := if Nat.leb cap (length (k_buffer k)) then tl (k_buffer k) ++ [e] else k_buffer k';
+     k_live := k_live k' |}.
+Record buffer_use := {
+  bu_vec : bool;             (* the session / task history buffers are plain Vec<Event> *)
+  bu_never_shortened : bool; (* no truncate / drain / remove / pop / clear / retain / split_off / take on them *)
+  bu_snapshot_source : bool  (* write_snapshot is handed the locked buffer itself *)
+}.
+Definition wf_buffer_use (b : buffer_use) : bool := bu_vec b && bu_never_shortened b && bu_snapshot_source b.
+
 (* ---------- emit sites of the source (tools/gen/sinks.py -> Gen/Sinks.v) ----------
    `emit` above hands ONE value to all four sinks.  The extractor records, for every place where ripd publishes
    a frame, whether the same unmodified binding feeds the log append, the store next to it (sidecar or
-   snapshot buffer) and the broadcast send. *)
+   snapshot buffer) and the broadcast send; in which order the three statements come and whether the log
+   append's result is checked; and, for the continuity append paths, whether the seq mutex guard is still held
+   at the send (no drop before it) and the counter is advanced after it. *)
 Record sink_site := {
   ss_has_log : bool; ss_same_log : bool;
   ss_has_store : bool; ss_same_store : bool;
-  ss_immutable : bool
+  ss_immutable : bool;
+  ss_cont : bool;            (* a continuity append path (continuities.rs) *)
+  ss_order : emit_order;
+  ss_guard_held : bool
 }.
 
 Definition site_ok (x : sink_site) : bool :=
@@ -850,6 +932,14 @@ Definition site_ok (x : sink_site) : bool :=
 
 Definition wf_sinks (l : list sink_site) : bool :=
   match l with [] => false | _ => forallb site_ok l end.
+
+(* continuity append paths: checked log append first, then sidecar and channel, under the seq mutex;
+   session / task emitters: every sink once (their log append comes last and its error is dropped — see
+   c03_unchecked_log_last_refuted) *)
+Definition site_order_ok (x : sink_site) : bool :=
+  if ss_cont x then wf_order (ss_order x) && ss_guard_held x else order_complete (ss_order x).
+Definition wf_sinks_order (l : list sink_site) : bool :=
+  match l with [] => false | _ => forallb site_order_ok l && existsb ss_cont l end.
 
 (* ---------- correspondence cases (harness/src/bin/c03.rs) ----------
    A case is one JSON document (as AST, numbers as token atoms) plus what the real crates did with it:
